@@ -106,6 +106,8 @@ def fixed_cases():
     for n in (2, 3, None):
         yield {'v': ['std', 'deque', [['int', 10], ['int', 20], ['int', 30], ['int', 40], inner], 9], 'n': n, 'width': 40, 'indent': 4, 'std': True}
         yield {'v': ['std', 'odict', [[['int', i], inner] for i in range(4)]], 'n': n, 'width': 40, 'indent': 4, 'std': True}
+        yield {'v': ['std', 'counter', [[['str', 'k%d' % i], 9 - i] for i in range(6)]], 'n': n, 'width': 40, 'indent': 4, 'std': True}
+        yield {'v': ['list', [['std', 'counter', [[['int', i], 3 + i] for i in range(4)]], ['std', 'mproxy', [[['int', i], inner] for i in range(4)]]]], 'n': n, 'width': 40, 'indent': 4, 'std': True}
         yield {'v': ['std', 'ddict', 'list', [[['int', i], inner] for i in range(4)]], 'n': n, 'width': 40, 'indent': 4, 'std': True}
         yield {'v': ['std', 'chainmap', [[[['int', i], inner] for i in range(4)], [[['str', 'k'], ['int', 0]]]]], 'n': n, 'width': 40, 'indent': 4, 'std': True}
         yield {'v': ['std', 'ntuple', 'Point', [inner, ['tuple', [['int', 1], ['int', 2], ['int', 3], ['int', 4]]]]], 'n': n, 'width': 40, 'indent': 4, 'std': True}
